@@ -274,8 +274,11 @@ func qrAlgorithm(inSitu *InSitu, epsilon float64) (Matrix, Matrix, error) {
   }
 
   // apply Francis QR steps
-  for p, q := 0, 0; q < n-1; {
+  for p, q, iter := 0, 0, 0; q < n-1; iter++ {
     verifhook.Tick("qr.francis")
+    if iter >= 30*n*n {
+      return nil, nil, fmt.Errorf("QR algorithm did not converge")
+    }
 
     for i := 0; i < n-1; i++ {
       h11 := h.ConstAt(i  ,i  ).GetFloat64()
@@ -308,8 +311,11 @@ func qrAlgorithm(inSitu *InSitu, epsilon float64) (Matrix, Matrix, error) {
       continue
     }
     // run QR steps until convergence
-    for {
+    for iter := 0;; iter++ {
       verifhook.Tick("qr.block2x2")
+      if iter >= 100 {
+        return nil, nil, fmt.Errorf("QR algorithm did not converge")
+      }
       h11 := h.ConstAt(i  ,i  ).GetFloat64()
       h21 := h.ConstAt(i+1,i  ).GetFloat64()
       h22 := h.ConstAt(i+1,i+1).GetFloat64()
